@@ -7,137 +7,9 @@ import os
 
 VERIF = os.path.dirname(os.path.dirname(os.path.abspath(__file__)))
 
-CLAIMS = {
-    "C01": dict(
-        technique="static analysis: guard-dominance / path-fact rule over MIR (quote-tag discipline) + value-flow of execve argv",
-        text="Decides, for all CFG paths of the planning pipeline in both crates, that every effect depending on a "
-             "positive inspection of token text for shell syntax is controlled by a test of the same token's quote "
-             "tag, and that execve's argv is a lossless map of the token texts. A necessary condition of the "
-             "property (an unguarded site makes a quoted operator act); the tokenizer's tag assignment for "
-             "arbitrary input is not decided.",
-        note="trusted: rustc MIR + callee resolution; inspector class table in sa/etag.py; tokenizer state machine not covered",
-        ref="4/C01"),
-    "C02": dict(
-        technique="static analysis: must-call with guard-kill over Child/Parent regions of fork, loop-shape and value-flow rules",
-        text="Decides on all paths of run_pipeline / run_single_program / wait_fg_job the descriptor wiring and "
-             "staggered parent closes that EOF propagation needs, the wait obligation, and that the reported status "
-             "is the last pid's. Byte delivery and scheduling are not decided.",
-        note="trusted: MIR, libc/nix semantics; counting lemma for vector-held pipes (DESIGN 3, E-FD)",
-        ref="4/C02"),
-    "C03": dict(
-        technique="static analysis: loop-exit shape, truth table of path conditions, backward value-flow slices",
-        text="Decides that the list loop exits only on iterator exhaustion, that run/skip equals the short-circuit "
-             "truth table over (sep, status), and the status plumbing into $?, -c and script exit codes, on all paths.",
-        note="trusted: MIR; line_to_cmds' splitting of arbitrary text is not decided",
-        ref="4/C03"),
-    "C04": dict(
-        technique="static analysis: call-set and who-may-call rules, region (post-fork Child) membership, error-path must-reach",
-        text="Decides truncate/append call sets, descriptor targets of the child-side redirect loop, forward iteration, "
-             "that every dup2 is in the Child region, and that open failures reach a non-zero exit / are not dropped.",
-        note="trusted: MIR, std::fs::OpenOptions semantics; redirection spelling regexes not decided",
-        ref="4/C04"),
-    "C05": dict(
-        technique="static analysis: panic-site inventory with discharge rules over MIR asserts/panicking calls; loop variant (stutter) rule",
-        text="Every panic-capable site reachable from the parsing/expansion/planning entry points is discharged by a "
-             "dominating guard, a regex-literal fact, or an audited table entry; every non-iterator loop has a "
-             "machine-checked progress argument. Undischarged site = crash on the input that reaches it.",
-        note="trusted: regex/pest/glob/lineread/std internals; audited table in sa/rules/c05.py",
-        ref="4/C05"),
-    "C06": dict(
-        technique="static analysis: API-precondition (sortedness) rule, event-routing table agreement, signal-mask typestate over the call graph",
-        text="Decides structural necessary conditions of job tracking: no binary_search on launch-ordered pids, the "
-             "four child-event kinds are parked in matching maps by both reapers and all drained, id allocation shape. "
-             "Interleaving semantics are not decided.",
-        note="trusted: MIR, nix WaitStatus; model-level interleavings out of reach of path rules",
-        ref="4/C06"),
-    "C07": dict(
-        technique="static analysis: must-call pairing on flagged edges, guard dominance, region rules",
-        text="Decides that every site that may hand the terminal to a job gives it back on all paths, that the hand-over "
-             "is guarded by (has_terminal, isatty, not background), setpgid precedes exec in the child, and the "
-             "signal-mask bracket inside give_terminal_to.",
-        note="trusted: MIR, libc; real process groups / signal delivery not decided",
-        ref="4/C07"),
-    "C08": dict(
-        technique="static analysis: descriptor ownership typestate at every return / exec, must-call obligations with guard-kill",
-        text="Decides on all return paths (including pipe()/fork failure paths no test drives) that every raw descriptor "
-             "created is released or handed over, in the shell and before exec in the child.",
-        note="trusted: MIR, close-on-exec facts for std::fs opens vs pipe/dup; counting lemma for staggered closes",
-        ref="4/C08"),
-    "C09": dict(
-        technique="static analysis: guard dominance, who-may-call and value-flow rules",
-        text="Decides that cd's state writes are dominated by a successful chdir, per-command assignments touch the "
-             "shell only when no command follows, execve's envp merges both sources, and the set/unset/export API "
-             "call sets.",
-        note="trusted: MIR, std::env semantics; histories over models not decided",
-        ref="4/C09"),
-    "C10": dict(
-        technique="static analysis: rescan taint (value fed back into its own scanner), tag-guard rule, value-flow",
-        text="Decides that an expanded value cannot flow back into the pass's scanner (necessary for single "
-             "substitution and termination), that quoted tokens are skipped, and the $?/$$ sources.",
-        note="trusted: MIR; regex exactness on adjacent text not decided",
-        ref="4/C10"),
-    "C11": dict(
-        technique="static analysis: taint (command output into regex replacement template / rescan), stutter rule, constant-argument rule",
-        text="Decides that captured output cannot reach a replacement template unescaped or be rescanned for $(, that "
-             "the substitution loop cannot stutter, capture=true at the three sites, and trailing-newline-only trimming.",
-        note="trusted: MIR, regex replacement-template semantics",
-        ref="4/C11"),
-    "C12": dict(
-        technique="static analysis: tag-guard rule, tag-expression control dependence, edit-order (Rev) rule, template taint",
-        text="Decides three structural clauses: no expansion of tagged tokens, produced words with spaces get a quote "
-             "tag, pending edits are applied in descending index order. Produced word lists are not decided.",
-        note="trusted: MIR; value-level results (cartesian order, sequences, glob matches) out of reach",
-        ref="4/C12"),
-    "C13": dict(
-        technique="static analysis: pass summaries (source class x tag expression) against recogniser guards (E-RETAG)",
-        text="Decides whether any expansion pass can leave externally-derived text in a token whose tag lets an "
-             "operator recogniser accept it; recognisers honour the tag; list splitting precedes expansion.",
-        note="trusted: MIR; source classification table in sa/rules/c13.py",
-        ref="4/C13"),
-    "C14": dict(
-        technique="static analysis: PEG grammar facts (pest_meta AST) vs interpreter tables, flag-propagation rules",
-        text="Decides that the top rule is anchored at end of input, that each walker's rule set covers the grammar's "
-             "child sets, and the break/continue/first-true-branch propagation shape.",
-        note="trusted: pest semantics, MIR; equivalence with a reference interpreter not decided",
-        ref="4/C14"),
-    "C15": dict(
-        technique="static analysis: backward value-flow table, constant and region rules",
-        text="Decides status plumbing for functions/source/scripts/exit, positional base index, exit_on_error test "
-             "after every command, and that source/functions run in the shell process (not in a Child region).",
-        note="trusted: MIR",
-        ref="4/C15"),
-    "C16": dict(
-        technique="static analysis: call-graph funnel rule, tokenizer-specials vs renderer escape-set table agreement",
-        text="Decides that all entry points reach execution only through run_command_line and that the script path's "
-             "token renderer re-escapes every character the tokenizer treats specially (necessary for idempotent "
-             "re-tokenizing).",
-        note="trusted: MIR; special-character table S justified in DESIGN 4/C16",
-        ref="4/C16"),
-    "C17": dict(
-        technique="static analysis: guard discipline on the head-of-stage flag, rescan rule, API call-set",
-        text="Decides that alias lookup happens only at head-of-stage positions, the flag is cleared on every path that "
-             "consumes a word, replaced tokens are not looked up again, unalias removes by exact key.",
-        note="trusted: MIR",
-        ref="4/C17"),
-    "C18": dict(
-        technique="static analysis: SQL taint (format! into Connection::execute/prepare) with explicit sanitizers, guard rule",
-        text="Decides that no user-controlled text reaches SQL text unless quote-doubled inside quotes or bound as a "
-             "parameter, and the recording guard (leading space / immediate repeat) in main.",
-        note="trusted: MIR, rusqlite API; durability across processes not decided",
-        ref="4/C18"),
-    "C19": dict(
-        technique="static analysis: Pratt-table extraction, grammar/evaluator table agreement, panic-site rule",
-        text="Decides the operator precedence/associativity table, symbol-rule-operator agreement of both evaluators, "
-             "mode selection, and that no evaluator site can panic.",
-        note="trusted: pest PrattParser semantics; numeric results not decided",
-        ref="4/C19"),
-    "C20": dict(
-        technique="static analysis: escape-class (regex literal) vs tokenizer/expansion specials table agreement, structural filter rules",
-        text="Decides that the completion escaper's class covers the characters the tokenizer and expansion passes act "
-             "on, and the candidate filter shape (prefix match, directories only after cd, sorted).",
-        note="trusted: regex-syntax class parsing; pty round trip not decided",
-        ref="4/C20"),
-}
+import sys
+sys.path.insert(0, os.path.dirname(os.path.abspath(__file__)))
+from claims import CLAIMS  # noqa: E402
 
 PENDING_REASON = "check not built yet in this revision (planned, see DESIGN.md section 9)"
 
